@@ -11,10 +11,11 @@ RULE = ('Hypothesis draws a valid journal (C03 generator without damage: 1-5 tra
         'follows the last replayed-block write, and the filesystem superblock loses needs_recovery only after that. non-trivial = crash point inside the replay writes or between replay and journal reset; distinct by (journal, front-end, crash point, mask)') % FRONTENDS
 
 def strategy(env):
-    tr = st.fixed_dictionaries(dict(blocks=st.lists(st.tuples(st.integers(0, 199), st.integers(0, 9).map(lambda x: x == 0)), min_size=1, max_size=14), rev_before=st.lists(st.integers(0, 199), max_size=3), rev_after=st.lists(st.integers(0, 199), max_size=3),
+    pidx = c03.pidx
+    tr = st.fixed_dictionaries(dict(blocks=st.lists(st.tuples(pidx, st.integers(0, 9).map(lambda x: x == 0)), min_size=1, max_size=14), rev_before=st.lists(pidx, max_size=3), rev_after=st.lists(pidx, max_size=3),
                                     split=st.sampled_from([0, 0, 3]), same_uuid=st.booleans()))
     return st.fixed_dictionaries(dict(fs=st.integers(0, len(c03.FSCFG) - 1), fmt64=st.booleans(), csum=st.sampled_from([0, 1, 2, 3]), **{'async': st.booleans()}, seq0=st.sampled_from([1, 77, 0xfffffffd]), start_mode=st.integers(0, 1), start=st.integers(0, 5000),
-                                      seed=st.integers(0, 1 << 20), trans=st.lists(tr, min_size=1, max_size=5), fe=st.integers(0, len(FRONTENDS) - 1), mask_seed=st.integers(0, 1 << 20)))
+                                      seed=st.integers(0, 1 << 20), trans=st.lists(tr, min_size=1, max_size=5), fe=st.integers(0, len(FRONTENDS) - 1), mask_seed=st.integers(0, 1 << 20), dmg=st.sampled_from([0, 0, 0, 1]), dmg_at=st.integers(0, 4)))
 
 def envinit(widx):
     env = hyp.img_env(widx, variants=('asan',)); env['base'] = {}
@@ -29,7 +30,9 @@ def body(case, env):
     b = c03.base_image(env, case['fs'])
     if b is None: return (None, fp, False, None, classes + ['skip:base'])
     base, pool = b; bs = cfg['bs']; d = env['dir']; tp = env['plain']; ta = env['asan']
-    spec = dict(case, damage=0, damage_at=0)
+    # one case in four carries a logged data block with a broken checksum (v2/v3 journals): jbd2 skips that block, reports the error and resets the journal - the ordering
+    # of fsync / journal reset must hold on that path too
+    spec = dict(case, damage=(jbd2.DAMAGE.index('data-csum') if case.get('dmg') else 0), damage_at=case.get('dmg_at', 0))
     img = os.path.join(d, 'c04.img'); shutil.copyfile(base, img)
     try: expected, touched, candidates, poisoned, info = jbd2.write_journal(img, spec, pool)
     except ValueError as e: return (None, fp, False, None, classes + ['skip:writer'])
@@ -40,17 +43,20 @@ def body(case, env):
     if os.path.exists(log): os.unlink(log)
     r = recover(tp, fe, w, env=vrun.traced_env(log, 'c04w.img'))
     ok_rc = (0,) if fe == 'debugfs jr' else (0, 1)
+    if spec['damage']: ok_rc = (0, 1, 4, 5) if fe != 'debugfs jr' else (0, 1)     # e2fsck reports the journal checksum error (uncorrected bit) on such journals
     obs = dict(fs=cfg['name'], frontend=fe, csum=case['csum'], fmt64=case['fmt64'], log=info['log'])
     if r.rc not in ok_rc: return (dict(obs, kind='recovery-failed', rc=r.rc, out=r.out[-300:]), fp, True, None, classes)
     with open(w, 'rb') as f: R = f.read()
     def blk(buf, n): return buf[n * bs:(n + 1) * bs]
     with open(base, 'rb') as f: orig = f.read()
+    damaged = info['damage'] != 'none'
+    if damaged: classes.append('journal-with-bad-data-checksum')
     for n in pool:
-        if blk(R, n) != expected.get(n, blk(orig, n)): return (dict(obs, kind='uninterrupted-recovery-differs-from-model', block=n), fp, True, None, classes)
+        if not damaged and blk(R, n) != expected.get(n, blk(orig, n)): return (dict(obs, kind='uninterrupted-recovery-differs-from-model', block=n), fp, True, None, classes)
     tr = [(op, off, dat) for op, off, dat in vrun.parse_trace(log) if op in 'WS']
     writes = [i for i, (op, off, dat) in enumerate(tr) if op == 'W']
     # ---- trace invariants
-    replayed = set(expected)      # blocks the model says are written by the replay (a logged block that is revoked is not)
+    replayed = set(b_ for b_ in touched if blk(R, b_) != blk(orig, b_)) if damaged else set(expected)      # blocks the model says are written by the replay (a logged block that is revoked is not)
     late_replay = []; cur = bytearray(open(img, 'rb').read()); last_replay = -1; fsync_after_replay = -1; jreset = -1; nrclear = -1
     for i, (op, off, dat) in enumerate(tr):
         if op == 'S':
